@@ -58,7 +58,7 @@ def check_prf(case, ctx):
             fw2 = fw * case['ratio']
             th = case['theta_deg']
             m = GaussianPRF(flux=flux, x_0=x0, y_0=y0, x_fwhm=fw, y_fwhm=fw2,
-                            theta=th)
+                            theta=_theta_form(case))
             sx, sy = fw / S2F, fw2 / S2F
     ctx.event(kind)
     smax = max(sx, sy)
@@ -134,7 +134,9 @@ def prf_cases(draw):
             'fwhm': draw(st.one_of(st.floats(0.2, 1.0), st.floats(0.2, 8.0))),
             'ratio': draw(st.sampled_from([1.0, 0.5, 0.8, 1.7])),
             'theta_deg': draw(st.one_of(st.sampled_from([0.0, 90.0, 180.0, -90.0, 270.0]),
-                                        st.floats(-180, 180)))}
+                                        st.floats(-180, 180))),
+            'theta_form': draw(st.sampled_from(['float', 'float', 'deg', 'rad',
+                                                'arcmin', 'angle_rad']))}
 
 
 # --------------------------------------------------------------------------
@@ -164,7 +166,7 @@ def check_psf(case, ctx):
             m = CircularGaussianPSF(flux=flux, x_0=x0, y_0=y0, fwhm=p['fwhm'])
         elif kind == 'gauss':
             m = GaussianPSF(flux=flux, x_0=x0, y_0=y0, x_fwhm=p['fwhm'],
-                            y_fwhm=p['fwhm'] * p['ratio'], theta=p['theta_deg'])
+                            y_fwhm=p['fwhm'] * p['ratio'], theta=_theta_form(p))
         elif kind == 'moffat':
             m = MoffatPSF(flux=flux, x_0=x0, y_0=y0, alpha=p['alpha'],
                           beta=p['beta'])
@@ -260,6 +262,8 @@ def psf_cases(draw):
             'fwhm': draw(st.floats(0.2, 9.0)),
             'ratio': draw(st.sampled_from([1.0, 0.4, 0.8, 2.0])),
             'theta_deg': draw(st.floats(-180, 180)),
+            'theta_form': draw(st.sampled_from(['float', 'float', 'deg', 'rad',
+                                                'arcmin', 'angle_rad'])),
             'alpha': draw(st.floats(0.5, 6.0)), 'beta': draw(st.floats(1.2, 6.0)),
             'radius': draw(st.floats(0.5, 8.0)),
             'radii': draw(st.lists(st.floats(0.2, 4.0), min_size=1, max_size=3)),
@@ -274,6 +278,24 @@ def _psf_data(seed, shape):
     yy, xx = np.mgrid[0:ny, 0:nx]
     d = np.exp(-((xx - nx / 2.3) ** 2 + (yy - ny / 1.9) ** 2) / (2 * (min(ny, nx) / 5) ** 2))
     return d + 0.05 * rng.random((ny, nx))
+
+
+def _theta_form(case):
+    """The rotation angle in one of its accepted spellings (float degrees,
+    or a Quantity / Angle in any angular unit)."""
+    import astropy.units as u
+    from astropy.coordinates import Angle
+    th = case['theta_deg']
+    form = case.get('theta_form', 'float')
+    if form == 'deg':
+        return th * u.deg
+    if form == 'rad':
+        return math.radians(th) * u.rad
+    if form == 'arcmin':
+        return (th * 60.0) * u.arcmin
+    if form == 'angle_rad':
+        return Angle(math.radians(th), u.rad)
+    return th
 
 
 def check_imagepsf(case, ctx):
